@@ -196,6 +196,7 @@ class CSSVariablesRule(cssrule.CSSRule):
             a CSSVariablesDeclaration or string
         """
         self._checkReadonly()
+        old = getattr(self, '_variables', None)
         if isinstance(variables, str):
             self._variables = CSSVariablesDeclaration(
                 cssText=variables, parentRule=self
@@ -203,6 +204,9 @@ class CSSVariablesRule(cssrule.CSSRule):
         else:
             variables._parentRule = self
             self._variables = variables
+        if old is not None and old is not self._variables:
+            # the replaced block is no part of this rule anymore
+            old._parentRule = None
 
     variables = property(
         lambda self: self._variables,
